@@ -6,7 +6,8 @@ it exists so that failing cases shrink structurally and replay from JSON.
 
 Model
 -----
-case = {"kind": "mod", "entry": "visit"|"load", "layout": "top"|"sub", "doc": docspec|None,
+case = {"kind": "mod", "entry": "visit"|"load", "layout": "top" (module m) | "sub" (module p.m) | "init" (p/__init__.py),
+        "doc": docspec|None,
         "ptry": bool,                     # wrap the derived import prelude in try/except ImportError
         "body": [stmt, ...]}
 
@@ -261,6 +262,16 @@ def _ovl(scope: str):
     )
 
 
+def weighted(*pairs):
+    """one_of with integer weights. Hypothesis drops repeated occurrences of the *same* strategy object from one_of, so
+    every repetition is wrapped in its own (identity) map."""
+    alts = []
+    for strat, w in pairs:
+        alts.append(strat)
+        alts.extend(strat.map(lambda x: x) for _ in range(w - 1))
+    return st.one_of(*alts)
+
+
 def _block(scope: str, depth: int, direct: bool, rel: bool, max_size: int = 4):
     return st.lists(_stmt(scope, depth, direct, rel), min_size=0, max_size=max_size)
 
@@ -315,7 +326,7 @@ def _stmt(scope: str, depth: int, direct: bool, rel: bool):
         st.fixed_dictionaries({"k": st.just("with"), "var": st.one_of(st.none(), _names()), "body": inner, "orelse": st.none()}),
         _ovl(scope),
     ]
-    out = st.one_of(*simple, *compound, compound[0], compound[0], compound[1], compound[1])
+    out = weighted(*[(x, 1) for x in simple], (compound[0], 3), (compound[1], 3), *[(x, 1) for x in compound[2:]])
     _CACHE[key] = out
     return out
 
@@ -325,9 +336,9 @@ def modules(max_depth: int = 3, entry_load_ratio: int = 8):
 
     @st.composite
     def build(draw):
-        layout = draw(st.sampled_from(["top", "top", "sub"]))
+        layout = draw(st.sampled_from(["top", "top", "top", "sub", "sub", "init"]))
         entry = draw(st.sampled_from(["visit"] * (entry_load_ratio - 1) + ["load"]))
-        rel = layout == "sub"
+        rel = layout != "top"
         body = draw(st.lists(_stmt("mod", max_depth, True, rel), min_size=1, max_size=7))
         return {
             "kind": "mod",
